@@ -31,6 +31,12 @@ is enumeration, not a solver verdict.
 A clause is reported for the step at which it turns from holding to failing
 (key = operation kind + clause); steps starting from a state in which a clause
 is already broken do not re-report it.
+
+Round 4: a history may involve a SECOND geometry (the "companion", created by
+copy_layers_from(companion=True) / give_layers and kept on the primary geometry
+as _vx_companion); every clause is evaluated on both geometries after every
+step (keys <op>/companion:<clause> and companion.<op>/<clause>).  Steps marked
+setup=True prepare a state and are not reported themselves.
 """
 import itertools
 import os
@@ -542,6 +548,7 @@ SHARE = [dict(op='copy_layers_from', n=2, companion=True), dict(op='give_layers'
 SHARED_EDITS = [dict(op='translate'), dict(op='rename_layer', layer='last', name='zz'), dict(op='refine_layers', layers=[1], factor=2),
                 dict(op='companion', do=dict(op='translate')), dict(op='companion', do=dict(op='rename_layer', layer=1, name='zq')),
                 dict(op='companion', do=dict(op='refine_layers', layers=[], factor=2))]
+SHARED_EDITS_ATM = [dict(op='rename_layer', layer=0, name='zr'), dict(op='companion', do=dict(op='rename_layer', layer=0, name='zr'))]   # the atmosphere layer
 RENAMES = [dict(op='rename_column', cols=[0, 1], perm='swap'), dict(op='rename_column', cols=[0, 1, 2], perm='cycle'),
            dict(op='rename_column', cols=[0, 1], perm='chain'), dict(op='rename_layer', layers=[1, 2], perm='swap'),
            dict(op='rename_layer', layers=[0, 1], perm='chain'),
@@ -631,6 +638,7 @@ def plan(tier):
     for tag, fam, n in (fams if thorough else fams[:1]):
         seqs = [[s_, e] for s_ in SHARE for e in SHARED_EDITS if thorough or e.get('do', e)['op'] != 'refine_layers']
         if thorough and tag == 'R2x2': seqs += [[s_, e, f] for s_ in SHARE for e in SHARED_EDITS for f in SHARED_EDITS if e is not f]
+        if thorough and tag == 'R2x2': seqs += [[s_, e] for s_ in SHARE for e in SHARED_EDITS_ATM]
         batches(fam, seqs, '%s/two-geometries' % tag, 3 if not thorough else 6)
     # (b) list forms of rename_column / rename_layer whose new names are old names of other renamed objects
     #     (swap, 3-cycle, chain: all final names distinct), and a rename onto a name that stays in use
